@@ -216,6 +216,9 @@ def subIdx : Sub → Idx → Idx
 
 def subShape (s : Sub) : List Nat := s.map fun p => p.2.1
 
+/-- `i` is one of the `n` positions `b, b+st, …` of a progression. -/
+def onProg (b n st i : Nat) : Bool := (List.range n).any fun j => i == b + j * st
+
 /-- Position of kept-axis cell `k` of the sub-grid in the enclosing index space. -/
 def mapKept : List Bool → Sub → Idx → Idx
   | true :: rs, _ :: ss, k => mapKept rs ss k
@@ -509,7 +512,7 @@ inductive Sel where
   deriving Repr
 
 def rowMajor : List Nat → Idx → Nat
-  | h :: hs, i :: is => i * prod hs + rowMajor hs is
+  | _ :: hs, i :: is => i * prod hs + rowMajor hs is
   | _, _ => 0
 
 def Sel.eval (sh : List Nat) (data : Idx → Val) : Sel → Idx → Bool
@@ -531,8 +534,7 @@ def Sel.eval (sh : List Nat) (data : Idx → Val) : Sel → Idx → Bool
 
 /-- Mask of a `SliceSubsetState`: every coordinate lies on its slice's progression. -/
 def subMask : Sub → Idx → Bool
-  | (b, n, st) :: ss, i :: is =>
-    (decide (b ≤ i) && decide ((i - b) % st = 0) && decide ((i - b) / st < n)) && subMask ss is
+  | (b, n, st) :: ss, i :: is => onProg b n st i && subMask ss is
   | [], [] => true
   | _, _ => false
 
